@@ -29,6 +29,8 @@ def subdivide_segment(p1, p2, num_points, endpoint=True):
             size of partition. should be >= 2.
 
     """
+    n = vg.shape.check(locals(), "p1", (-1,))
+    vg.shape.check(locals(), "p2", (n,))
     if not isinstance(num_points, int):
         raise TypeError("partition_size should be an int.")
     elif num_points < 2:
@@ -54,6 +56,8 @@ def subdivide_segments(v, num_subdivisions=5):
     by the length of the segment and the supplied partition size.
 
     """
+    vg.shape.check(locals(), "v", (-1, -1))
+
     src = np.arange(len(v) - 1)
     dst = src + 1
 
